@@ -106,6 +106,12 @@ CLAIMED = {
    note="Trusted: Lean kernel; the fact extractor (go/types) and the allow-list of derived back-reference fields; the injection generator. The individual rule predicates are not modelled (each is exercised by the matrix). Three defects fixed (nested streams in steps, union tags in generic arguments, diagnostics without file).",
    technique="Lean 4 proof (traversal completeness over the surface type) + kernel-checked facts regenerated from source + rule-violation injection matrix",
    design="§7 C09"),
+ "C10": dict(
+   engine="frontend",
+   text="Kernel-checked (the logic that keeps the passes from running away): the dependency sort is total; an accepted namespace has a rank strictly decreasing along every reference, including references inside type arguments of imported generics, so passes and generators that recurse along references terminate; a reference cycle is never accepted; over the pass list regenerated from the current source, every pass after type resolution either returns at once when errors were reported or is on the reviewed list of passes that tolerate unresolved references; validation errors reach the exit status (C11 facts). That the Go process neither panics, hangs nor exhausts memory is decided by a time- and memory-limited fuzz run of the real CLI (yardl validate, yardl generate on a sample): arbitrary and corrupted bytes, structural YAML mutations of valid models (node kinds, tags, anchors, merge keys, indentation), random strings over the type-syntax alphabet at every site, random computed-field expressions, semantically arbitrary models (every C09 violation and cycle kind, self-referential and mutually recursive generics, nesting hundreds deep, alias chains), deep layered models (2^depth paths) through all four generators, arbitrary manifests (wrong types, missing / self imports, self versions, import cycles). Outcome must be exit 0, or exit 1 with an error naming a file of the package.",
+   note="The theorem part covers termination logic only; totality of the process is evidence from fuzzing (not a proof) - this is what the model cannot carry. Nine defects fixed (two stack overflows, an infinite loop in the expression parser, two crashes on malformed YAML nodes, exponential type resolution, exponential generators, ...). Open known finding: evolution comparison of deeply layered models is still exponential.",
+   technique="Lean 4 proof (termination rank from the dependency sort) + kernel-checked facts regenerated from source + resource-limited CLI fuzzing",
+   design="§7 C10"),
 }
 NOT_YET = "machinery for this property is not built yet in this round (see DESIGN.md §10 build order)"
 checks, na = [], []
